@@ -221,9 +221,28 @@ func C17(c *Case) *Result {
 	}
 	rprog = append(rprog, op{Kind: "GetRead"}, op{Kind: "Close"}, op{Kind: "Close"}, op{"Read", 1 + t.Intn(100)}, op{Kind: "GetRead"})
 	res.Render["reader_program"] = rprog
+	// the source: whole reads, or pieces (pipes); the input bitstream buffer: default or small, so
+	// that the counters are also observed after the bitstream has refilled its buffer
+	cfg.RBuf = GenBuf(t)
+	shortMode := t.Intn(3)
+	shortConst := 1 + t.Intn(64)
+	res.Render["source"] = map[string]int{"rbuf": cfg.RBuf, "short_mode": shortMode, "short_const": shortConst}
+	rhooks := sim.Hooks{OnIO: func(s *sim.Sched, ti *sim.TaskInfo, obj, op string, k, n int) sim.IOAction {
+		if op != "read" || n <= 1 || shortMode == 0 {
+			return sim.IOAction{}
+		}
+		l := shortConst
+		if shortMode == 2 {
+			l = 1 + s.Tape.Intn(n)
+		}
+		if l < n {
+			s.Fault("src.short")
+		}
+		return sim.IOAction{N: l}
+	}}
 
 	viol = ""
-	s = sim.Run(t, sim.Options{KeepTrace: c.KeepTrace}, func(env *sim.Env) {
+	s = sim.Run(t, sim.Options{Hooks: rhooks, KeepTrace: c.KeepTrace}, func(env *sim.Env) {
 		src := sim.NewSimSource(env.S, "in", streamBytes)
 		rd, err := NewReader(cfg.readerSpec(), src)
 		if err != nil {
